@@ -4,9 +4,16 @@
 
 package common
 
+//@ -- SnapId(s): the value id (builtin kvval) of the payload hash of s, as a function of the scalar payload fields and of the identity
+//@ -- of the References object and of the Transactions slice (added for C15, which needs "the hash recorded under FINALIZATION/<tx> is
+//@ -- the hash the snapshot is stored under"). ASSUMED determinism of the hash; in-place mutation of *s.References or of the elements
+//@ -- of s.Transactions between two calls is not tracked by this name (no function under contract does that).
+//@ uninterp SnapHashFn(v mathint, n mathint, r mathint, t mathint, refs *RoundLink, txs []crypto.Hash) mathint
+//@ spec SnapId(s *Snapshot) mathint = SnapHashFn(s.Version, kvval(s.NodeId), s.RoundNumber, s.Timestamp, s.References, s.Transactions)
 //@ assume func (s *Snapshot) PayloadHash
 //@   requires s != nil && s.Version == SnapshotVersionCommonEncoding
 //@   modifies nothing
+//@   ensures [deterministic] kvval(result) == SnapId(s)
 
 // ───────────── round.go (C19, C18) ─────────────
 
